@@ -62,7 +62,7 @@ def gen_ops(rng, cfg, n, weights=None):
             else:
                 ops.append(f"drop h={h}")
         elif o == "gethold":
-            h = newh(); ops.append(f"get k={k} h={h}"); live.append(h)
+            h = newh(); ops.append(f"{rng.choice(['get', 'get', 'gof'])} k={k} h={h}"); live.append(h)
         elif o == "getdrop":
             h = newh(); ops.append(f"get k={k} h={h}"); ops.append(f"drop h={h}")
         elif o == "touch":
@@ -269,9 +269,9 @@ def oracle_c05(h):
                 del cur[int(k)]
         if name == "ins" and kv["ph"] != "1":
             cur[int(kv["k"])] = kv["v"]
-        if name in ("get", "remove") and d["ret"].startswith("hit:"):
+        if name in ("get", "gof", "remove") and d["ret"].startswith("hit:"):
             hv[kv["h"]] = d["ret"][4:]; hkind[kv["h"]] = name
-            if name == "get":
+            if name in ("get", "gof"):
                 pin.add(d["ret"][4:])
         if name == "touch" and d["ret"] == "1":
             # a lookup without a handle of its own: the entry stays unevictable only while other handles are held
@@ -367,6 +367,8 @@ def oracle_c13(h):
             if e not in ok:
                 return (n, f"notification {e}:{k}:{v} during {name}")
             if name == "ins":
+                if kv["ph"] == "1" and e == "E":
+                    return (n, f"Evict notification {k}:{v} during the insertion of a non-admitted (disk-only) entry")
                 if e == "R" and int(k) != int(kv["k"]):
                     return (n, f"Replace notification for key {k} during insert of {kv['k']}")
                 if e == "M" and not (kv["ph"] == "1" and v == kv["v"]):
@@ -398,9 +400,12 @@ def oracle_c13(h):
 
 
 def oracle_c18(h):
-    """refs = live handles to the same entry; handle contents stable; is_outdated truthful; no leak."""
+    """refs = live handles to the same entry; handle contents stable; is_outdated truthful; no leak;
+    LRU: a looked-up entry is not evicted while a handle to it is held."""
     ver, cur, hv = {}, {}, {}
     total_cap = int(h.cfg["cap"])
+    lru = h.cfg["algo"] == "lru"
+    pin = set()
     for n, (op, kv, d) in enumerate(h.lines):
         if isinstance(d, str):
             return (n, f"implementation observation {d}")
@@ -408,11 +413,21 @@ def oracle_c18(h):
         if name == "ins":
             ver[kv["v"]] = (int(kv["k"]), int(kv["w"]), kv["ph"] == "1"); hv[kv["h"]] = kv["v"]
         for e, k, v in evs(d):
+            if lru and e == "E" and v in pin and name in ("ins", "resize", "evict_all", "flush"):
+                return (n, f"LRU evicted {k}:{v}, which was looked up and is still held")
             if cur.get(int(k)) == v:
                 del cur[int(k)]
+        if name in ("get", "gof") and d["ret"].startswith("hit:"):
+            pin.add(d["ret"][4:])
+        if name == "touch" and d["ret"] == "1" and cur.get(int(kv["k"])) in hv.values():
+            pin.add(cur.get(int(kv["k"])))
+        if name == "drop":
+            v0 = hv.get(kv["h"])
+            if v0 is not None and sum(1 for x in hv.values() if x == v0) == 1:
+                pin.discard(v0)
         if name == "ins" and kv["ph"] != "1":
             cur[int(kv["k"])] = kv["v"]
-        if name in ("get", "remove") and d["ret"].startswith("hit:"):
+        if name in ("get", "gof", "remove") and d["ret"].startswith("hit:"):
             hv[kv["h"]] = d["ret"][4:]
         if name == "clone" and kv["h"] in hv:
             hv[kv["h2"]] = hv[kv["h"]]
@@ -456,7 +471,7 @@ def oracle_c17(h):
         name = op.split()[0]
         if name == "ins":
             ver[kv["v"]] = int(kv["k"])
-        if name in ("get", "remove") and d["ret"].startswith("hit:"):
+        if name in ("get", "gof", "remove") and d["ret"].startswith("hit:"):
             v = d["ret"][4:]
             if ver.get(v) != int(kv["k"]):
                 return (n, f"{name} of key {kv['k']} returned value {v} stored for key {ver.get(v)}")
@@ -497,6 +512,6 @@ def classify(lines):
             flags.add("remove-hit")
         if name == "touch" and d["ret"] == "1":
             flags.add("touch-hit")
-        if name == "get" and d["ret"] != "miss":
+        if name in ("get", "gof") and d["ret"] != "miss":
             flags.add("get-hit")
     return flags
